@@ -718,11 +718,14 @@ namespace Clipper2Lib {
   {
     typename Path<T>::size_type idx = 0;
     double max_d = 0;
-    while (end > begin && path[begin] == path[end]) flags[end--] = false;
+    // when the end points coincide there is no line to measure from,
+    // so measure the distance from that point instead
+    const bool same_ends = (path[begin] == path[end]);
     for (typename Path<T>::size_type i = begin + 1; i < end; ++i)
     {
       // PerpendicDistFromLineSqrd - avoids expensive Sqrt()
-      double d = PerpendicDistFromLineSqrd(path[i], path[begin], path[end]);
+      double d = same_ends ? DistanceSqr(path[i], path[begin]) :
+        PerpendicDistFromLineSqrd(path[i], path[begin], path[end]);
       if (d <= max_d) continue;
       max_d = d;
       idx = i;
